@@ -203,13 +203,17 @@ func processErr(call *CallCtxt, errVal interface{}, ret adt.Expr) adt.Expr {
 	case *callError:
 		ret = err.b
 	case *json.MarshalerError:
+		ret = &adt.Bottom{Err: errors.Promote(err, "")}
 		if err, ok := err.Err.(Bottomer); ok {
 			if b := err.Bottom(); b != nil {
 				ret = b
 			}
 		}
 	case Bottomer:
-		ret = err.Bottom()
+		ret = &adt.Bottom{Err: errors.Promote(err, "")}
+		if b := err.Bottom(); b != nil {
+			ret = b
+		}
 
 	case errors.Error:
 		// Convert lists of errors to a combined Bottom error.
